@@ -124,6 +124,7 @@ finding("P49", ["C15"], "open", "numpydoc (and google after a Returns section) h
 finding("P50", ["C15"], "open", "ReST docstring with `:return:` followed by `:rtype:`: the splitter cuts the `:rtype:` line off the section and returns it as footer; converting such a docstring (to any style) appends a duplicate `:rtype:` line")
 finding("P51", ["C15"], "open", "header/args/footer split: the boundary between section and footer is misplaced by a few characters (numpydoc: the last description line or the return type's tail lands in the footer; with the unindented section as `current` the returned section is truncated); the three parts still tile the original exactly")
 finding("P56", ["C20"], "open", "exmod --blacklist <pkg>.<sub> is ignored for a top-level package (the path compared is built as '.sub', never the FQN): the black-listed sub-package is emitted; --whitelist <pkg>.<sub> emits nothing at all")
+finding("P57", ["C16", "C05"], "open", "sqlalchemy parse of a class whose docstring documents the columns loses the [PK]/[FK] markers (the docstring description wins the merge); gen_routes then falls back to the FIRST column as primary key")
 finding("P26", ["C07"], "open", "doctrans drops comments inside a rewritten multi-line def header")
 finding("P27", ["C07"], "open", "doctrans turns a one-line `def f(a=1): return a` into invalid Python")
 finding("P28", ["C07"], "open", "doctrans does not recognise a raw docstring r\"\"\"...\"\"\": a second string is inserted")
@@ -232,6 +233,22 @@ W.append(('P17d', "C19", {'in': 'class', 'names': ['Alpha', 'Beta'], 'irs': [{'n
 _T = {"modules": {"mod_00": ["Alpha"], "sub0/mod_10": ["Beta"]}, "irs": {"Alpha": I([A5]), "Beta": I([A5])}, "levels": 2}
 W.append(("P56", "C20", {"tree": _T, "emit": "class", "recursive": True, "sqlsub": False, "list": "blacklist", "chosen": ["sub0"], "cells": [[False, "absent"]]}))
 W.append(("P18", "C20", {"tree": _T, "emit": "sqlalchemy_table", "recursive": True, "sqlsub": True, "list": "none", "chosen": [], "cells": [[True, "empty"], [True, "populated"], [True, "absent"]]}))
+
+# ---- C16 witnesses
+def M(cls, tbl, cols, pk="explicit", pk_name=None, crud="CRD", doc_cols=False, multi=False, emitted=False):
+    return {"emitted": emitted, "doc_cols": doc_cols, "cls": cls, "tbl": tbl, "tbl_kind": "?", "cols": cols, "pk": pk, "pk_name": pk_name, "crud": crud, "multi": multi}
+
+
+def Col(name, typ="int", **kw):
+    d = {"name": name, "typ": typ, "nullable": False, "default": None, "fk": False}
+    d.update(kw)
+    return d
+
+
+W.append(("P16", "C16", {"models": [M("FooBar", "foo_bar", [Col("key", "str", pk=True), Col("n")], pk_name="key", multi=True)], "app": "rest_api", "prefix": "/api"}))
+W.append(("P32", "C16", {"models": [M("Config", "config_tbl", [Col("key", "str", pk=True), Col("other", fk=True)], pk_name="key", emitted=True)], "app": "rest_api", "prefix": "/api"}))
+W.append(("P33", "C16", {"models": [M("Config", "config_tbl", [Col("n"), Col("m", "str")], pk="none", emitted=True)], "app": "rest_api", "prefix": "/api"}))
+W.append(("P57", "C16", {"models": [M("Config", "config_tbl", [Col("n"), Col("key", "str", pk=True)], pk_name="key", doc_cols=True)], "app": "rest_api", "prefix": "/api"}))
 
 
 def main():
